@@ -773,6 +773,28 @@ def _inline_methods_in_class(c: Optional[ast.ClassDef], extra: Optional[Dict[str
                             out[len(out) - len(stmts):] = [ast.fix_missing_locations(x) for x in stmts2]
                             count += 1
                             continue
+                    if isinstance(s, ast.Assign) and len(s.targets) == 1 and isinstance(s.targets[0], ast.Tuple) and isinstance(rv, ast.Name) and rv.id.startswith(f'{h.name}__') \
+                            and all(isinstance(e_, ast.Name) for e_ in s.targets[0].elts):
+                        # `a, b = self._m(...)` where every exit of the helper returns a pair written out: each exit binds a and b
+                        tnames = [e_.id for e_ in s.targets[0].elts]
+                        sites = [x_ for st_ in stmts for x_ in ast.walk(st_) if isinstance(x_, ast.Assign) and len(x_.targets) == 1 and isinstance(x_.targets[0], ast.Name)
+                                 and x_.targets[0].id == rv.id]
+                        mentions = any(isinstance(y_, ast.Name) and y_.id in tnames for st_ in stmts for y_ in ast.walk(st_))
+                        if sites and not mentions and all(isinstance(x_.value, ast.Tuple) and len(x_.value.elts) == len(tnames)
+                                                          and not any(isinstance(e_, ast.Starred) for e_ in x_.value.elts) for x_ in sites):
+                            class _Split(ast.NodeTransformer):
+                                def visit_Assign(self_, node):
+                                    if node in sites:
+                                        return [ast.fix_missing_locations(ast.copy_location(ast.Assign(targets=[ast.Name(id=nm_, ctx=ast.Store())], value=v_), node))
+                                                for nm_, v_ in zip(tnames, node.value.elts)]
+                                    return node
+                            new_stmts = []
+                            for st_ in stmts:
+                                r2_ = _Split().visit(st_)
+                                new_stmts += r2_ if isinstance(r2_, list) else [r2_]
+                            out[len(out) - len(stmts):] = new_stmts
+                            count += 1
+                            continue
                     if isinstance(s, ast.Assign):
                         new = ast.Assign(targets=s.targets, value=rv)
                     elif isinstance(s, ast.Return):
